@@ -893,6 +893,67 @@ func (env *specEnv) call(x *SCall) SV {
 			}
 		}
 		env.fail("len of %s", v.Sort)
+	case "selhas", "selhassend":
+		// selhas(c): c is the channel of some receive case of the select this at-clause is anchored at
+		// (selhassend: of some send case)
+		if e.atSelect == nil {
+			env.fail("%s is only available in at-clauses anchored at a select", id.Name)
+		}
+		v := arg(0)
+		var alts []Term
+		for _, st := range e.atSelect.States {
+			if (st.Dir == types.RecvOnly) == (id.Name == "selhas") {
+				alts = append(alts, tEq(v.T, e.val(st.Chan).T))
+			}
+		}
+		if len(alts) == 0 {
+			return SV{T: tFalse, Sort: "Bool"}
+		}
+		return SV{T: tOr(alts...), Sort: "Bool"}
+	case "bound":
+		// bound(f, i, "type"): the i-th value captured by the closure / bound-method value f, of the given Go type
+		// (for x.M, binding 0 is the receiver x; for a func literal, a captured variable is a pointer to its cell)
+		if len(x.Args) != 3 {
+			env.fail("bound(f, i, \"type\")")
+		}
+		v := arg(0)
+		il, ok1 := x.Args[1].(*SLit)
+		tl, ok2 := x.Args[2].(*SLit)
+		if !ok1 || !ok2 || il.Kind != "int" || tl.Kind != "string" {
+			env.fail("bound(f, i, \"type\")")
+		}
+		idx, _ := strconv.Atoi(il.Val)
+		tn, _ := strconv.Unquote(tl.Val)
+		if !strings.Contains(tn, "/") && !strings.Contains(tn, ".") && env.pkg != nil && types.Universe.Lookup(strings.TrimPrefix(tn, "*")) == nil {
+			if strings.HasPrefix(tn, "*") {
+				tn = "*" + env.pkg.Path() + "." + tn[1:]
+			} else {
+				tn = env.pkg.Path() + "." + tn
+			}
+		}
+		gt := e.W.lookupType(tn)
+		if gt == nil {
+			env.fail("bound: unknown type %s", tn)
+		}
+		srt := e.sortOf(gt)
+		fn := closureBindFn(idx, srt)
+		e.declareFun(fn, []string{"Int"}, srt)
+		return SV{T: sx(fn, v.T), Sort: srt, GT: gt}
+	case "isfunc":
+		// isfunc(f, "pkg.Name" | "(pkg.T).Method$bound" | "Name"): the function value f runs exactly that function
+		v := arg(0)
+		if len(x.Args) != 2 {
+			env.fail("isfunc(f, \"function name\")")
+		}
+		lit, ok := x.Args[1].(*SLit)
+		if !ok || lit.Kind != "string" {
+			env.fail("isfunc(f, \"function name\")")
+		}
+		name, _ := strconv.Unquote(lit.Val)
+		if !strings.Contains(name, "/") && env.pkg != nil {
+			name = qualifyKey(name, env.pkg.Path())
+		}
+		return SV{T: tEq(sx("fnid", v.T), tInt(int64(e.W.typeIDByName("fn:"+normalizeFnKey(name))))), Sort: "Bool"}
 	case "cap":
 		v := arg(0)
 		if v.Sort == "Slice" {
